@@ -128,6 +128,15 @@ def finish(prop, meta, tier, seed, report, t0, replay_mode=False):
             suppressed.setdefault(k["id"], []).append(v)
         else:
             new.append(v)
+    # pinned witnesses: a witness that fails must match a `known` entry with exactly that signature;
+    # a fixed entry's witness (or any other) failing again is a fresh violation
+    known_ids = {k["id"]: k for k in known}
+    for pid, psig in list(report["pinned"].items()):
+        k = known_ids.get(pid)
+        if k is None or psig not in k.get("signatures", [k.get("signature")]):
+            new.append({"sig": "pinned-witness-fails:%s:%s" % (pid, psig), "sub": "pinned", "case_seed": 0,
+                        "detail": {"witness": pid, "observed": psig, "note": "no known finding with this id and signature"}})
+            del report["pinned"][pid]
     lines = []
     for k in known:
         hits = suppressed.get(k["id"], [])
